@@ -298,10 +298,21 @@ def make_chain(rng):
         if rng.chance(0.6):
             el = M.Prim(rng.choice(["int32", "int16", "float32"]))
             r.fields.append(("vecfield%d" % rng.randint(1, 99), M.Vec(M.Opt(el) if rng.chance(0.4) else el)))
+    # the last thing in the stream: a record whose trailing fields (a string, vectors of fixed-size numbers) go away in later versions
+    tails = ()
+    rt = rng.fork("evotail")
+    if rt.chance(0.6):
+        fn0 = sorted(base.files)[0]
+        base.files[fn0].append(M.Record("EvoTail", (), [("id", M.Prim("int32")), ("weights", M.Vec(M.Prim(rt.choice(["float32", "float64", "uint8"])))), ("samples", M.Vec(M.Prim("complexfloat32"))),
+                                                     ("note", M.Prim("string"))]))
+        for d in base.defs():
+            if isinstance(d, M.Protocol):
+                d.steps.append(("evolast", M.Named("EvoTail"), False))
+        tails = ("EvoTail",)
     k = rng.fork("chainshape")
     newest = E.with_versions(base, rng.fork("ver"), k.choice([1, 2, 2, 3]), partial=True, must_edit=must,
                              order=k.choice(["oldest_first", "oldest_first", "newest_first", "shuffled"]), p_new_protocol=k.choice([0.0, 0.4]),
-                             widen_steps=("evo3", "evo4", "evo6", "evo7", "evo10"), widen_aliases=wal, union_steps=ust, to_union_steps=tust)
+                             widen_steps=("evo3", "evo4", "evo6", "evo7", "evo10"), widen_aliases=wal, union_steps=ust, to_union_steps=tust, tail_records=tails)
     # where the previous versions come from: directories next to the package, or commits of one git repository named by URL
     newest.versions_from_git = k.fork("git").chance(0.3)
     return newest
